@@ -721,22 +721,16 @@ def fault_grid(seed, policy, tag, **kw):
             _tlog.defaultObserver = None
     except Exception:
         pass
-    import time as _time
-    import allmydata.immutable.downloader.finder as _finder
-    saved_now = _finder.now
     try:
         with grid.Runtime(seed=seed, policy=policy) as rt:
-            # finder.py binds `now = time.time` at import, so the Runtime's virtual clock does not reach
-            # it: DYHB round-trip times (the fetcher's sort key) would be wall-clock noise.  Use the
-            # virtual clock: rtt = injected delay, ties broken by share number.
-            _finder.now = _time.time
+            # (grid.Runtime makes the import-bound `now` of finder.py / share.py / node.py follow the virtual
+            # clock, so DYHB round-trip times — the fetcher's sort key — are the injected delays, ties by shnum)
             g = grid.Grid(grid.fresh_dir(tag), rt, **kw)
             try:
                 yield rt, g
             finally:
                 g.close()
     finally:
-        _finder.now = saved_now
         grid.LocalWrapper = saved
 
 
